@@ -13,6 +13,8 @@ the FIRST Via-class header.
 import Proxy.Model
 import Lemmas.Abs
 import Lemmas.Pipe
+import Lemmas.Codec
+import Props.C07
 open GoStd Sip Proxy Lemmas
 
 namespace Props.C02
@@ -301,5 +303,50 @@ example : ∀ hd, findHeader exCfg.cm exResp.headers viaName = some hd → ∃ s
   rw [this] at h
   cases h
   exact ⟨_, rfl⟩
+
+/-! ### the request / response pair -/
+
+/-- THE PAIR, at the level of the sender's Via entry. The request's top Via entry `vp` is stamped with the true
+source `(ip, port)` when the listener supports `received`; whatever the next hops do with the request, the
+response they send back carries that stamped entry; after the proxy has popped its own entry the response hop is
+computed from it (`C02_hop`). That hop is the true source address, and the true source port whenever the sender asked for
+`rport` (with or without a value, even a forged one); otherwise it is the true source address and the sent-by port. -/
+theorem C02_pair_rport (vp : ViaParam) (ip : Bytes) (port : Int)
+    (hport : 0 ≤ port) (hsmall : port ≤ 9223372036854775807)
+    (h : hasParam vp.params (str "rport") = true) :
+    responseHopOf (stampReceived vp ip port) = { host := ip, port := port, transport := vp.transport } := by
+  have h1 := Props.C07.C07_received vp ip port
+  have h2 := Props.C07.C07_rport_present vp ip port h
+  have h3 := (Props.C07.C07_other_fields vp ip port).2.2.1
+  rw [C02_received_rport _ ip (itoa port) port h1 h2 (atoi_itoa hport hsmall), h3]
+
+theorem C02_pair_no_rport (vp : ViaParam) (ip : Bytes) (port : Int)
+    (h : hasParam vp.params (str "rport") = false) :
+    responseHopOf (stampReceived vp ip port) = { host := ip, port := vp.getPort, transport := vp.transport } := by
+  have h1 := Props.C07.C07_received vp ip port
+  have h2 := Props.C07.C07_rport_absent vp ip port h
+  obtain ⟨_, _, h3, h4, h5⟩ := Props.C07.C07_other_fields vp ip port
+  have hgp : (stampReceived vp ip port).getPort = vp.getPort := by
+    simp [ViaParam.getPort, h3, h5]
+  simp [responseHopOf, h1, h2, hgp, h3]
+
+/-- ... and so a response whose Via stack, after the proxy's own entry has been popped, starts with the entry the proxy
+stamped on the way in, goes back to where the request really came from. -/
+theorem C02_returns_to_true_source (cfg : Cfg) (m m1 : Message) (vp : ViaParam) (rest : List ViaParam)
+    (ip : Bytes) (port : Int) (hport : 0 ≤ port) (hsmall : port ≤ 9223372036854775807)
+    (hr : hasParam vp.params (str "rport") = true)
+    (hg : getVia cfg.cm m = some (stampReceived vp ip port :: rest, m1)) :
+    getNextResponseHop cfg m = (some { host := ip, port := port, transport := vp.transport }, m1) := by
+  rw [C02_hop cfg m m1 _ rest hg, C02_pair_rport vp ip port hport hsmall hr]
+
+/-- non-vacuity: a sender behind a NAT announces 10.0.0.1:5060 and asks for rport; the request really came from
+192.0.2.7:40000 -/
+def natVia : ViaParam :=
+  { protoName := str "SIP", protoVersion := str "2.0", transport := str "UDP", host := str "10.0.0.1", port := 5060,
+    params := [⟨str "branch", str "z9hG4bKx"⟩, ⟨str "rport", []⟩] }
+
+example : responseHopOf (stampReceived natVia (str "192.0.2.7") 40000)
+    = { host := str "192.0.2.7", port := 40000, transport := str "UDP" } :=
+  C02_pair_rport natVia (str "192.0.2.7") 40000 (by decide) (by decide) (by decide +kernel)
 
 end Props.C02
